@@ -29,6 +29,7 @@ def run(prog, chk):
         "user features are parsed once, every writer works on that one object, the compiled source is its serialisation; without writers the user's text is used as is (R17.5)",
         "insert markers are only honoured in top-level feature blocks, first marker per tag (R17.6)",
         "include() statements resolve against the parent directory of the UFO with and without feature writers (parseLayoutFeatures' includeDir; the file name buildTables hands to feaLib) (R17.7)",
+        "generated glyph classes never take a class name the feature file already defines: every writer hands its feature file to makeGlyphClassDefinitions, which reserves the existing names (R17.8)",
     ]
     chk.not_decided += ["index arithmetic of marker placement", "GSUB byte identity", "feaLib's asFea() round trip"]
     chk.guard(r171, prog, chk)
@@ -38,6 +39,7 @@ def run(prog, chk):
     chk.guard(r175, prog, chk)
     chk.guard(r176, prog, chk)
     chk.guard(r177, prog, chk)
+    chk.guard(r178, prog, chk)
 
 
 # ----------------------------------------------------------------------------- R17.1
@@ -453,7 +455,45 @@ def r177(prog, chk):
     chk.minimum("R17.7", 2)
 
 
+
+# ----------------------------------------------------------------------------- R17.8
+def r178(prog, chk):
+    """Generated glyph classes never take a class name the user's feature file already defines (a second definition
+    of the same name would replace the user's class for everything that follows): every writer hands its feature file
+    to makeGlyphClassDefinitions, which reserves the existing class names before it invents new ones."""
+    ix = prog.ix
+    mk = ix.get_func("ufo2ft.featureWriters.ast:makeGlyphClassDefinitions")
+    ps = mk.params()
+    need(len(ps) >= 2, f"cannot interpret {mk.short}")
+    fea = ps[1]
+    taken = [st for st in A.stmts_of(mk.node) if isinstance(st, ast.Assign) and isinstance(st.value, (ast.SetComp, ast.Call)) and "iterClassDefinitions" in T(st.value) and fea in T(st.value)]
+    ok = len(taken) == 1 and any(o == "isnot" and l == fea and r == "None" for o, l, r in facts(prog, mk, taken[0]))
+    names = T(taken[0].targets[0]) if taken else "?"
+    uses = [c for c in calls_named(mk, "makeFeaClassName")]
+    ok = ok and bool(uses) and all(len(c.args) >= 2 and T(c.args[1]) == names or T(A.kwarg(c, "existingClassNames")) == names for c in uses)
+    adds = [c for c in calls_named(mk, "add") if T(c.func.value) == names]
+    ok = ok and bool(adds)
+    chk.ob("R17.8", f"{mk.short}|class names already defined in the feature file are reserved, new names are added as they are handed out", ok, where(mk), detail=f"{names} = names of iterClassDefinitions({fea})",
+           message=f"{mk.short}: generated glyph classes can get a name the feature file already defines")
+    n = 0
+    for fi in ix.functions.values():
+        if not fi.module.name.startswith("ufo2ft.featureWriters") or fi is mk:
+            continue
+        for c in calls_named(fi, "makeGlyphClassDefinitions"):
+            n += 1
+            a = A.kwarg(c, fea)
+            ok = a is not None and (T(a).endswith(".feaFile") or T(a) == "feaFile")
+            chk.ob("R17.8", f"{fi.short}|{A.keytext(fi.node, c)}|the writer's feature file is handed to makeGlyphClassDefinitions", ok, where(fi, c), detail=T(a) if a is not None else "no feaFile argument",
+                   message=f"{fi.short}: glyph classes are generated without looking at the class names of the user's feature file: a generated class can redefine a user's class of the same name")
+    need(n >= 2, "makeGlyphClassDefinitions call sites not found")
+    chk.minimum("R17.8", 4)
+
+
 MUTANTS = [
+    M("legacy kern writer builds its filtering class without the feature file (mutation scan run 2, k=154)", "ufo2ft/featureWriters/kernFeatureWriter2.py", "make_kerning_lookup",
+      "ast.makeGlyphClassDefinitions({className: spacing}, feaFile=context.feaFile)", "ast.makeGlyphClassDefinitions({className: spacing})", rule="R17.8"),
+    M("existing class names not reserved", "ufo2ft/featureWriters/ast.py", "makeGlyphClassDefinitions",
+      "{cdef.name for cdef in iterClassDefinitions(feaFile)}", "set()", rule="R17.8"),
     M("feaLib gets the features.fea path when no writer runs (seeded C17f)", "ufo2ft/featureCompiler.py", "FeatureCompiler.buildTables",
       "self.ufo.path if not self.featureWriters else None", "os.path.join(self.ufo.path, 'features.fea') if not self.featureWriters else None", rule="R17.7"),
     M("include directory is the UFO itself", "ufo2ft/featureCompiler.py", "parseLayoutFeatures",
